@@ -14,8 +14,8 @@ SHARDS = {"quick": 8, "thorough": 16}
 WATCHDOG = {"quick": 1800, "thorough": 10800}
 ZOO_CASES = {"quick": 100, "thorough": 1500}
 FLOORS = {
-    "quick": {"distinct_nontrivial": 1500, "grid_valid_completed": 1500, "grid_invalid_rejected": 2000,
-              "zoo_completed": 500, "nan_cases": 800},
+    "quick": {"distinct_nontrivial": 1500, "grid_valid_completed": 1200, "grid_invalid_rejected": 2000,
+              "zoo_completed": 350, "nan_cases": 800},
     "thorough": {"distinct_nontrivial": 6000, "grid_valid_completed": 6000},
 }
 ANCHORS = [
